@@ -402,6 +402,54 @@ theorem success_trips_on_expired_window (cfg : Cfg) (ops : List Op) (hcb : cfg.c
   refine ⟨hmin, Or.inl ?_⟩
   simpa [countFail, Nat.mul_comm] using hrate
 
+/-- **A time window longer than the whole history forgets nothing** (`sliding_window_duration(Duration::MAX)`, "never forget a
+call", header `wdur=max`; or any duration the clock has not reached yet): as long as the clock reading does not exceed the window
+duration, the pruning every record / evaluation starts with removes NOTHING — the window is every outcome recorded since the
+breaker last changed state. In particular a window duration that cannot be subtracted from the clock is not an empty window. -/
+theorem unbounded_time_window_keeps_everything (cfg : Cfg) (ops : List Op) (hcb : cfg.countBased = false)
+    (hw : (run cfg ops).now ≤ cfg.windowMs) :
+    (cleanup cfg (run cfg ops).circ (run cfg ops).now).recs = (run cfg ops).circ.hist := by
+  rw [time_window_is_young cfg ops hcb]
+  apply List.filter_eq_self.mpr
+  intro r _
+  simp only [decide_eq_true_eq]
+  omega
+
+/-- … so with such a window the next recording opens the breaker exactly when the documented condition holds over ALL the outcomes
+recorded since the last state change plus the new one, however far apart in time they were recorded. -/
+theorem unbounded_time_window_counts_every_call (cfg : Cfg) (ops : List Op) (hcb : cfg.countBased = false)
+    (hw : (run cfg ops).now ≤ cfg.windowMs)
+    (hst : (run cfg ops).circ.st = .closed) (fail : Bool) (dur : Nat) (own : Bool) :
+    let w := (run cfg ops).circ.hist ++ [({ t := (run cfg ops).now, fail := fail, slow := isSlow cfg dur } : Rec)]
+    ((record cfg (run cfg ops).circ fail dur (run cfg ops).now own).1.st = .opened ↔
+      shouldOpen cfg w.length (countFail w) (countSlow w) = true) := by
+  have h := expiry_decides_next_recording cfg ops hcb hst fail dur own
+  have hf : (run cfg ops).circ.hist.filter (fun r => decide ((run cfg ops).now - r.t ≤ cfg.windowMs)) = (run cfg ops).circ.hist := by
+    apply List.filter_eq_self.mpr
+    intro r _
+    simp only [decide_eq_true_eq]
+    omega
+  rw [hf] at h
+  exact h
+
+/-- Non-vacuity, THE WINDOW THAT NEVER FORGETS (`wdur=max` is parsed to 10^30 ticks; minimum 3, threshold 1/2): three failures, each
+recorded long after the one before (a million ticks apart): the third opens the breaker and the next call is rejected without an
+inner call; the snapshot before it counts both earlier failures. With an ordinary window of 100 ticks the same history stays closed
+(each record has aged out when the next arrives). The documented machine says the same. -/
+example :
+    let cfg : Cfg := { countBased := false, windowMs := wdurOf "max" 0, minCalls := 3, frNum := 1, frDen := 2, waitMs := 10 ^ 30 }
+    let cfgS : Cfg := { cfg with windowMs := 100 }
+    let ko (c : Nat) := [Op.arrive c ⟨0, .err 1⟩ 0, .poll c]
+    let h := ko 1 ++ [.adv 1000000] ++ ko 2 ++ [.adv 1000000]
+    (run cfg h).circ.st = .closed ∧ stats cfg (run cfg h).circ = (2, 2, 0, 0) ∧
+    (cleanup cfg (run cfg h).circ (run cfg h).now).recs.length = 2 ∧
+    (run cfg (h ++ ko 3)).circ.st = .opened ∧
+    (run cfg (h ++ ko 3 ++ [.adv 1000000] ++ ko 4)).log.getLast? = some (3000000, .result 4 .openCircuit) ∧
+    (run cfgS (h ++ ko 3)).circ.st = .closed ∧
+    (specRun cfg [.call true 0, .wait 1000000, .call true 0, .wait 1000000, .call true 0]).1.st = .opened ∧
+    (specRun cfgS [.call true 0, .wait 1000000, .call true 0, .wait 1000000, .call true 0]).1.st = .closed := by
+  decide
+
 /-- Non-vacuity, THE THRESHOLD REACHED BY EXPIRY ON A SUCCESS (window 100 ticks, minimum 3, threshold 1/2): S S S at t = 0, F F at
 t = 60: closed, the snapshot says 2 failures of 5. At t = 110 the three successes have aged out (110 > 100), the failures have not
 (50): the window of the next recording is F F + the new outcome. A SUCCESS recorded then opens the breaker (2/3 ≥ 1/2) — and so
